@@ -147,7 +147,12 @@ def holds1 (vk : VK) (x : Scalar) (c : Bytes) : Bool :=
         | .flt b, .f64 => pat == b                      -- a double field holds a double bit for bit
         | _, _ =>
           match realOf x with
-          | none => false
+          | none =>
+            -- an infinity (only reachable by copying another message's float array, which is not checked element
+            -- by element and counts as in-domain): the field holds the infinity of the same sign
+            (match x with
+             | .flt b => isInf64 b && mag == f.infPat && ((pat / f.sign % 2 == 1) == (b / 2 ^ 63 % 2 == 1))
+             | _ => false)
           | some (neg, a) =>
             match x with
             | .flt _ => (pat / f.sign % 2 == 1) == neg && isNearestMag f a mag
